@@ -81,6 +81,7 @@ def np_random_choice_distinct(ex, p, args, kwargs, e):
     ex.vc('no-raise/choice-weights-length@%d' % line, p, w.len == a.len, line=line)
     ex.vc('no-raise/choice-weights-positive@%d' % line, p, z3.ForAll([j], z3.Implies(z3.And(0 <= j, j < w.len), z3.Select(w.arr, j) > 0)), line=line)
     ex.vc('no-raise/choice-weights-sum-to-one@%d' % line, p, ex.lemmas.SumR(w.arr, w.len) == 1, line=line)
+    p.env['_choice_weights'] = w          # the weights this draw used (visible to specifications: asserts at loop<k>.body_end)
     arr = fresh('chosen', z3.ArraySort(I, I)); v = VList(k.t, arr, 'int'); x = fresh('x', I)
     if ex.listsets:
         p.assume(listsets.DupFree(v.term()))
@@ -127,7 +128,16 @@ def datetime_now(ex, p, args, kwargs, e):
     return VReal(fresh('now', z3.RealSort()))
 
 
+def os_path_exists(ex, p, args, kwargs, e): return VBool(fresh('exists', z3.BoolSort()))          # T8: any answer
+def os_makedirs(ex, p, args, kwargs, e): return VNone()
+def builtin_open(ex, p, args, kwargs, e): return VExt('file', tuple(args))                          # T8: a handle; content is not modelled
+def file_write(ex, p, args, kwargs, e): return VNone()          # args[0] is the handle
+def file_close(ex, p, args, kwargs, e): return VNone()
+
+
 def install(ex):
+    ex.ext_models['os.path.exists'] = os_path_exists; ex.ext_models['os.makedirs'] = os_makedirs
+    ex.ext_models['open'] = builtin_open; ex.ext_models['file.write'] = file_write; ex.ext_models['file.close'] = file_close
     ex.ext_models['datetime.datetime.now'] = datetime_now
     ex.ext_models['product'] = it_product
     ex.iter_models['product_enum'] = iter_product
